@@ -87,6 +87,7 @@ type typedDoc struct {
 	Txt  textVal                `nbt:"txt"`
 	Fold int32                  `nbt:"CaseFold"`
 	Any2 any                    `nbt:"any2"`
+	LSh  []int16                `nbt:"lsh"`
 	*Emb
 	Tail int32 `nbt:"tail"`
 }
@@ -260,6 +261,52 @@ func genDocs(nodes int) []doc {
 	return out
 }
 
+// sizeDocs: one document per (payload kind, size class). A size class is a byte size just above a
+// buffer size that stream code commonly works in (512: bytes.MinRead / io.ReadAll, 4096: bufio,
+// 2*4096, 32768: io.Copy, 65536): code that moves a payload in blocks behaves differently from one
+// block boundary on. Each kind appears under a known key of typedDoc and under an unknown key (the
+// skipping path); the tail field behind it shows a payload that was cut short or over-read.
+// bulk kinds (one length, one block of bytes): ByteArray, String, a long key; element-wise kinds (read
+// element by element today): IntArray, LongArray, List<String>, List<Short>, up to 40000 bytes.
+func sizeDocs(sizes []int, elementWise bool) []doc {
+	var out []doc
+	seq := func(n int) []int64 {
+		a := make([]int64, n)
+		for i := range a {
+			a[i] = int64(int8(1 + (i*7+3)%250)) // non-zero, position dependent
+		}
+		return a
+	}
+	type kind struct {
+		name, key string
+		v         *N
+	}
+	for _, s := range sizes {
+		strLen := min(s, 32767)
+		var kinds []kind
+		if !elementWise {
+			kinds = []kind{{"ByteArray", "ba", nBA(seq(s)...)}, {"String", "str", nStr(text(strLen))}}
+			out = append(out, doc{id: fmt.Sprintf("size=%d:key", s), tree: nComp(kv(text(strLen), nInt(1)), kv("tail", nInt(4)))})
+		} else if s <= 40000 {
+			shorts := make([]*N, s/2)
+			for i := range shorts {
+				shorts[i] = nShort(int64(i + 1))
+			}
+			strs := make([]*N, s/5)
+			for i := range strs {
+				strs[i] = nStr(text(3 + i%2)[i%2:]) // "abc" / "bcd"
+			}
+			kinds = []kind{{"IntArray", "ia", nIA(seq(s / 4)...)}, {"LongArray", "la", nLA(seq(s / 8)...)},
+				{"List<String>", "ls", nList(refnbt.String, strs...)}, {"List<Short>", "lsh", nList(refnbt.Short, shorts...)}}
+		}
+		for _, k := range kinds {
+			out = append(out, doc{id: fmt.Sprintf("size=%d:%s", s, k.name), tree: nComp(kv(k.key, k.v), kv("tail", nInt(0x0a0b0c0d)))})
+			out = append(out, doc{id: fmt.Sprintf("size=%d:unknown:%s", s, k.name), tree: nComp(kv("unknown", k.v), kv("tail", nInt(0x0a0b0c0d)))})
+		}
+	}
+	return out
+}
+
 func docInputs(docs []doc, network, optional bool, rootName string) []Input {
 	out := make([]Input, 0, len(docs))
 	for _, d := range docs {
@@ -268,35 +315,62 @@ func docInputs(docs []doc, network, optional bool, rootName string) []Input {
 	return out
 }
 
-func nbtReadOps(genNodes int) (ops []*ReadOp, nGen int) {
+func nbtReadOps(genNodes int, sizes []int, thorough bool) (ops []*ReadOp, nGen int) {
 	hand := handDocs()
 	gen := genDocs(genNodes)
+	var small []int
+	for _, s := range sizes {
+		if s <= allOffsetsUpTo {
+			small = append(small, s)
+		}
+	}
 	for _, network := range []bool{false, true} {
 		handIn := docInputs(hand, network, false, "root")
 		genIn := docInputs(gen, network, true, "")
 		both := append(append([]Input(nil), handIn...), genIn...)
-		with := func(o *ReadOp, ins []Input) *ReadOp { o.Inputs = ins; return o }
+		// Size-class documents. Every target gets the bulk kinds in one of its two formats (the formats
+		// differ in the root header, not in the payload paths); the element-wise kinds go to one target
+		// per reading routine: typed (unmarshal + the skipping rawRead), any, dynbt.Value and
+		// StringifiedMessage. The thorough tier adds, for the classes up to allOffsetsUpTo bytes, every
+		// kind on every target in both formats.
+		with := func(o *ReadOp, ins []Input, sized, ownRoutine bool) *ReadOp {
+			o.Inputs = append([]Input(nil), ins...)
+			switch {
+			case sized:
+				o.Inputs = append(o.Inputs, docInputs(sizeDocs(sizes, false), network, false, "root")...)
+				if ownRoutine {
+					o.Inputs = append(o.Inputs, docInputs(sizeDocs(sizes, true), network, false, "root")...)
+				} else if thorough {
+					o.Inputs = append(o.Inputs, docInputs(sizeDocs(small, true), network, false, "root")...)
+				}
+			case thorough:
+				o.Inputs = append(o.Inputs, docInputs(sizeDocs(small, false), network, false, "root")...)
+				o.Inputs = append(o.Inputs, docInputs(sizeDocs(small, true), network, false, "root")...)
+			}
+			return o
+		}
 		ops = append(ops,
-			with(decodeOp[typedDoc]("typed-struct", network), handIn),
-			with(prefilledOp(network), handIn),
-			with(decodeOp[skipAll]("struct-skipping", network), both),
-			with(decodeOp[any]("any", network), both),
-			with(decodeOp[map[string]any]("map", network), handIn),
-			with(decodeOp[nbt.RawMessage]("RawMessage", network), both),
-			with(decodeOp[dynbt.Value]("dynbt.Value", network), both),
-			with(decodeOp[nbt.StringifiedMessage]("StringifiedMessage", network), both),
+			with(decodeOp[typedDoc]("typed-struct", network), handIn, !network, true),
+			with(prefilledOp(network), handIn, network, false),
+			with(decodeOp[skipAll]("struct-skipping", network), both, network, false),
+			with(decodeOp[any]("any", network), both, !network, true),
+			with(decodeOp[map[string]any]("map", network), handIn, network, false),
+			with(decodeOp[nbt.RawMessage]("RawMessage", network), both, !network, false),
+			with(decodeOp[dynbt.Value]("dynbt.Value", network), both, network, true),
+			with(decodeOp[nbt.StringifiedMessage]("StringifiedMessage", network), both, !network, true),
 		)
 	}
 	// NBTField (network format, counts bytes)
 	handNet := docInputs(hand, true, false, "")
 	genNet := docInputs(gen, true, true, "")
+	bigNet := docInputs(sizeDocs(small, false), true, false, "")
 	ops = append(ops,
 		&ReadOp{Name: "NBTField{typed-struct,AllowUnknownFields}.ReadFrom", Inputs: handNet, Run: func(r io.Reader) (any, int64, error) {
 			var v typedDoc
 			n, err := pk.NBTField{V: &v, AllowUnknownFields: true}.ReadFrom(r)
 			return v, n, err
 		}},
-		&ReadOp{Name: "NBTField{any}.ReadFrom", Inputs: append(append([]Input{in("TagEnd", []byte{0})}, handNet...), genNet...), Run: func(r io.Reader) (any, int64, error) {
+		&ReadOp{Name: "NBTField{any}.ReadFrom", Inputs: append(append(append([]Input{in("TagEnd", []byte{0})}, handNet...), genNet...), bigNet...), Run: func(r io.Reader) (any, int64, error) {
 			var v any
 			n, err := pk.NBT(&v).ReadFrom(r)
 			return v, n, err
